@@ -194,6 +194,12 @@ int runCmd(const std::vector<std::string> &argv, std::string &out, int timeoutS)
         return -1;
     }
     pid_t pid = fork();
+    if (pid < 0) {
+        close(pfd[0]);
+        close(pfd[1]);
+        out = "fork failed";
+        return -1;
+    }
     if (pid == 0) {
         close(pfd[0]);
         dup2(pfd[1], 1);
